@@ -285,6 +285,9 @@ impl EditState {
                 let op = super::undo_operations::UndoScrollWholeLayerUp::new(self.get_current_layer()?);
                 return self.push_undo_action(Box::new(op));
             }
+            if area.get_height() < 2 {
+                return Ok(());
+            }
 
             let old_layer = Layer::from_layer(layer, area);
 
@@ -325,6 +328,9 @@ impl EditState {
             if area.get_width() >= layer.get_width() {
                 let op = super::undo_operations::UndoScrollWholeLayerDown::new(self.get_current_layer()?);
                 return self.push_undo_action(Box::new(op));
+            }
+            if area.get_height() < 2 {
+                return Ok(());
             }
             let old_layer = Layer::from_layer(layer, area);
 
